@@ -3,12 +3,14 @@
   `harness/src/bin/c13.rs`, computed by the model at `Float32` / `Float`.
 -/
 import LyonVerif.Drive.Common
-import LyonVerif.Model.Geom.SvgArc
+import LyonVerif.Model.Geom.SvgArcFlat
 
 namespace Lyon.Drive.C13
 open Lyon Lyon.Drive Lyon.ArcConv
 
-variable {α : Type} [Scalar α] [Transc α] [Wire α] [ArcConv.Eps α]
+variable {α : Type} [Scalar α] [Transc α] [Wire α] [ArcConv.Eps α] [FlatConst α]
+
+def flatFuel : Nat := 100000
 
 def fArc (a : Arc α) : String :=
   fp a.center ++ " " ++ fp a.radii ++ " " ++ fx a.start ++ " " ++ fx a.sweep ++ " " ++ fx a.xrot
@@ -22,15 +24,22 @@ def fQuads (l : List (Quad α × α × α)) : String :=
 def fCubics (l : List (Cubic α)) : String :=
   unwords ("cubics" :: toString l.length :: l.map fCubic)
 
+def fFlat (l : List (FlatSeg α)) : String :=
+  if l.length > flatFuel then "flat fuel" else
+  unwords ("flat" :: toString l.length ::
+    l.map (fun s => fp s.a ++ " " ++ fp s.b ++ " " ++ fx s.t0 ++ " " ++ fx s.t1))
+
 def rdSvg (v : Array String) : SvgArc α :=
   { from_ := rdP v 0, to := rdP v 2, radii := rdP v 4, xrot := rd v 6,
     large := rdNat v 7 == 1, sweep := rdNat v 8 == 1 }
 
-/-- `svg`: is_straight_line; to_arc (+ from/to, to_svg_arc); the SvgArc Bézier wrappers -/
+/-- `svg`: is_straight_line; to_arc (+ from/to, to_svg_arc); the SvgArc Bézier and flattening wrappers -/
 def svg (v : Array String) : String :=
   let s : SvgArc α := rdSvg v
+  let tol : α := rd v 9
   if isStraightLine s then
-    unwords ["straight", "1", fQuads (svgQuadsWithT s), fCubics (svgCubics s)]
+    unwords ["straight", "1", fQuads (svgQuadsWithT s), fCubics (svgCubics s),
+      fFlat (svgFlattenedWithT s tol flatFuel)]
   else
     let a := fromSvgArc s
     if bezPanics a then "panic" else
@@ -38,7 +47,8 @@ def svg (v : Array String) : String :=
       "arc", fArc a,
       "fromto", fp (a.sample Scalar.zero), fp (a.sample Scalar.one),
       "back", fSvg (toSvgArc a),
-      fQuads (svgQuadsWithT s), fCubics (svgCubics s)]
+      fQuads (svgQuadsWithT s), fCubics (svgCubics s),
+      fFlat (svgFlattenedWithT s tol flatFuel)]
 
 /-- `arc`: the centre-form conversions -/
 def arc (v : Array String) : String :=
